@@ -158,7 +158,7 @@ func c02VerifySummaries(e *Env, sums map[string]core.Summary) {
 				// fall back to the direct argument: value ≤ len(param) by guards
 				ret := x.At.(*ssa.Return)
 				b := core.NewBounds(e.P, f, sums)
-				if !retLeLen(b, ret.Results[s.Ret], f.Params[s.Param], ret) {
+				if !retLeLen(b, core.RetVal(ret, s.Ret), f.Params[s.Param], ret) {
 					ok, why = false, x.Why
 				}
 			}
@@ -175,7 +175,7 @@ func c02VerifySummaries(e *Env, sums map[string]core.Summary) {
 				continue
 			}
 			n++
-			if !b.ValueAtLeast(ret.Results[1], 0, ret) {
+			if !b.ValueAtLeast(core.RetVal(ret, 1), 0, ret) {
 				ok = false
 			}
 		}
@@ -350,8 +350,9 @@ func strictlyGrows(v ssa.Value) (bool, string) {
 }
 
 // c02HeaderAbsint: abstract interpretation of DecodeHeader on symbolic buffers of every length 0..16.
-func c02HeaderAbsint(e *Env) {
-	rule := "C02.R3"
+func c02HeaderAbsint(e *Env) { c02HeaderAbsintAs(e, "C02.R3") }
+
+func c02HeaderAbsintAs(e *Env, rule string) {
 	f := e.fn(rule, "tcp/coder.Coder.DecodeHeader")
 	if f == nil || len(f.Params) != 3 {
 		return
